@@ -24,6 +24,11 @@ BASE_FORM = {"plit": "lit", "plocal": "local", "ppredef": "predef"}
 VARIANTS = [("int-neg", "INTEGER", "lit"), ("float-neg", "FLOAT", "lit"), ("rtime-m", "RTIME", "lit"), ("rtime-h", "RTIME", "lit"),
             ("rtime-d", "RTIME", "lit"), ("rtime-y", "RTIME", "lit"), ("rtime-ms", "RTIME", "lit"), ("str-long", "STRING", "lit"),
             ("bool-false", "BOOL", "lit"), ("hdr-field", "header", "local")]
+# identifiers drawn for the first ID-typed argument of a built-in (and the target of `add`): every HTTP object
+# family in three shapes (header, header collection, object), declared objects, enumeration identifiers
+ID_OBJECTS = ["req", "bereq", "beresp", "resp", "obj"]
+ID_IDENTS = ([o + ".http.X-Verif-One" for o in ID_OBJECTS] + [o + ".headers" for o in ID_OBJECTS] + ID_OBJECTS
+             + ["pb_one", "rc_one", "tbl_one", "acl_one", "be_one", "aes128", "sha256"])
 COERCE_CTX = ["arg", "ret", "par"]
 VALUE_TYPES = ["INTEGER", "FLOAT", "STRING", "BOOL", "RTIME", "TIME", "IP", "BACKEND", "ACL"]
 DEPTHS = [1, 2, 3]
@@ -194,6 +199,17 @@ def observe(tier="quick", only=None):
                 if form_exists(r, f):
                     reqs.append("cell O,%s,%s,%s,%s" % (op, l, r, f))
                     index.append((row, p, "cell"))
+    # the first ID-typed argument of every built-in that has one (and the target of the add statement) drawn from every
+    # identifier of ID_IDENTS, in each of the nine scopes; STRICT: the simulator must not raise any error
+    o.idargs = []
+    idrows = [(f["name"], i) for f in funcs for i, sg in enumerate(f["sigs"]) if "ID" in sg.split(",")] + [("stmt:add", 0)]
+    for fn, i in idrows:
+        row = {"fn": fn, "sig": i, "lint": [None] * (9 * len(ID_IDENTS)), "interp": [None] * (9 * len(ID_IDENTS))}
+        o.idargs.append(row)
+        for k, idn in enumerate(ID_IDENTS):
+            for sc in range(9):
+                reqs.append("cell A,%s,%d,%s,%d" % (fn, i, idn, 1 << sc))
+                index.append((row, 9 * k + sc, "cell"))
     # literal spellings / header sub-field as right operand
     o.variants = []
     for op in ASSIGN_OPS + CMP_OPS:
@@ -424,6 +440,13 @@ def write_obs(o):
     b.append("].\n")
     _write(os.path.join(gen, "ObsStmts.v"), "".join(b))
     b = [HEADER]
+    b.append("(* the first ID-typed argument drawn from every identifier of idarg_idents: (function or stmt:add, signature,\n"
+             "   linter accepts, simulator raises NO error): bit 9 * identifier index + scope index *)\n")
+    b.append("Definition obs_idargs : list (string * N * N * N) := [\n")
+    b.append(";\n".join("(%s, %d, %d, %d)" % (cs(r["fn"]), r["sig"], lint_bits(r), bits([x == "ok" for x in r["interp"]])) for r in o.idargs))
+    b.append("].\n")
+    _write(os.path.join(gen, "ObsIdArgs.v"), "".join(b))
+    b = [HEADER]
     b.append("(* (context, expected type, linter accepts, simulator executes): bit 14 * value type index + form index *)\n")
     b.append("Definition obs_coerce : list (string * string * N * N) := [\n")
     b.append(";\n".join("(%s, %s, %d, %d)" % (cs(r["ctx"]), cs(r["etype"]), lint_bits(r), interp_bits(r)) for r in o.coerce))
@@ -505,7 +528,7 @@ def positions(bits_, n):
 
 
 GAP_PARTS = ["gaps_tables ++ gaps_func_table ++ gaps_var_types ++ gaps_funcs ++ gaps_stmts", "gaps_vars", "gaps_ops",
-             "gaps_variants ++ gaps_ops_left ++ gaps_coerce", "gaps_wide", "gaps_inferred"]
+             "gaps_variants ++ gaps_ops_left ++ gaps_coerce ++ gaps_idargs", "gaps_wide", "gaps_inferred"]
 
 
 def gap_rows():
@@ -557,6 +580,9 @@ def first_cell(row):
     if k.startswith("op-"):
         r, f = op_positions()[positions(b, 140)[0]]
         return "O,%s,%s,%s,%s" % (n, a, r, f)
+    if k.startswith("idarg-"):
+        p0 = positions(b, 9 * len(ID_IDENTS))[0]
+        return "A,%s,%s,%s,%d" % (n, a, ID_IDENTS[p0 // 9], 1 << (p0 % 9))
     if k.startswith("opv-"):
         return "X,%s,%s,%s" % (n, a, VARIANTS[positions(b, len(VARIANTS))[0]][0])
     if k.startswith("opl-"):
@@ -589,6 +615,7 @@ WHAT = {
     "stmt-model": "statement guard model differs from the real linter",
     "op-model": "operator model (Model/LintOps.v) differs from the real linter",
     "op-interp-model": "simulator decision model (Model/InterpAssign.v) differs from the real simulator",
+    "idarg-interp": "accepted by the linter, the simulator raises an error",
     "opv-lint": "the linter treats this spelling of the value differently from the plain literal / header of the same type",
     "opv-interp": "the simulator treats this spelling of the value differently from the plain literal / header of the same type",
     "opl-model": "operator model differs from the real linter (left operand provenance)",
@@ -608,6 +635,12 @@ WHAT = {
 
 def describe(row):
     k, n, a, b = row["kind"], row["name"], row["at"], row["bits"]
+    if k.startswith("idarg-"):
+        by = {}
+        for p0 in positions(b, 9 * len(ID_IDENTS)):
+            by.setdefault(ID_IDENTS[p0 // 9], []).append(SCOPES[p0 % 9])
+        where = "; ".join("%s in %s" % (i, ",".join(sc) if len(sc) < 9 else "every scope") for i, sc in by.items())
+        return "%s (signature %s) with the identifier argument %s: %s" % (n, a, where, WHAT.get(k, k))
     if k.startswith("opv-"):
         return "%s %s %s [%s]: %s" % (a, n, "<value>", ", ".join(VARIANTS[p][0] for p in positions(b, len(VARIANTS))), WHAT.get(k, k))
     if k.startswith("op-") or k.startswith("opl-"):
